@@ -9,8 +9,9 @@
 // TRUSTED: std HashMap / Vec behind the RwLock as exact keyed tables (reg_* primitives), Arc<dyn Fn> called once per call expression.
 //@@ unit U-emit
 //@@ default props=C18 rewrites=R1,R2,R3,R5,R13,R15 ghost="Tracked(em): Tracked<&mut EmAbs>" ghostarg="Tracked(em)"
-//@@ heapmethods reg_upsert tick_push entries tick_entries call call_tick interleave contains_key remove on_message on_start on_complete on_error emitter_remove
+//@@ heapmethods hook_push hook_entries emit_task_event_with_extra reg_upsert tick_push entries tick_entries call call_tick interleave contains_key remove on_message on_start on_complete on_error emitter_remove
 use vstd::prelude::*;
+use std::sync::Arc;
 verus! {
 pub type HId = int;
 pub ghost struct Registry {
@@ -19,6 +20,8 @@ pub ghost struct Registry {
     pub messages: Map<Seq<char>, HId>,
     pub errors: Map<Seq<char>, HId>,
     pub ticks: Seq<HId>,
+    pub procs: Seq<HId>,      // Emitter::on_proc handlers (engine-internal: the runtime's process-event handler), in registration order
+    pub tasks: Seq<HId>,      // Emitter::on_task handlers (engine-internal: the runtime's task-event handler, user hooks), in registration order
 }
 pub tracked struct EmAbs {
     pub ghost reg: Registry,
@@ -112,6 +115,33 @@ impl TickReg {
         ensures r@.len() == old(em).reg.ticks.len(), forall|i: int| 0 <= i < r@.len() ==> (#[trigger] r@[i]).hid() == old(em).reg.ticks[i], *final(em) == *old(em) { unimplemented!() }
 }
 impl Clone for TickReg { #[verifier::external_body] fn clone(&self) -> (r: Self) { unimplemented!() } }
+// ---- the two engine-internal hook lists: ShareLock<Vec<ActProcHandle>> / ShareLock<Vec<ActTaskHandle>> (which() = 0 procs, 1 tasks)
+#[verifier::external_body]
+pub struct HookReg { _p: u8 }
+pub open spec fn hooks_of(r: Registry, which: int) -> Seq<HId> { if which == 0 { r.procs } else { r.tasks } }
+impl HookReg {
+    pub uninterp spec fn which(&self) -> int;
+    // R11: `X.write().unwrap().push(Arc::new(f))`
+    #[verifier::external_body]
+    pub fn hook_push(&self, f: HandlerFn, Tracked(em): Tracked<&mut EmAbs>)
+        ensures *final(em) == (EmAbs { reg: if self.which() == 0 { Registry { procs: old(em).reg.procs.push(f.hid()), ..old(em).reg } } else { Registry { tasks: old(em).reg.tasks.push(f.hid()), ..old(em).reg } }, ..*old(em) }) { unimplemented!() }
+    // R11: `X.read().unwrap()` (the guard derefs to the Vec; iterated with .iter())
+    #[verifier::external_body]
+    pub fn hook_entries(&self, Tracked(em): Tracked<&mut EmAbs>) -> (r: Vec<HandlerFn>)
+        ensures r@.len() == hooks_of(old(em).reg, self.which()).len(), forall|i: int| 0 <= i < r@.len() ==> (#[trigger] r@[i]).hid() == hooks_of(old(em).reg, self.which())[i], *final(em) == *old(em) { unimplemented!() }
+}
+// R7: `Event::new(&self.runtime.read().unwrap(), proc)` / `Event::new_with_extra(&.., task, &TaskExtra { emit_message })`: the event wraps that object
+#[verifier::external_body]
+pub struct ProcessX { _p: u8 }
+#[verifier::external_body]
+pub struct TaskX { _p: u8 }
+impl ProcessX { pub uninterp spec fn pev(&self) -> int; }
+impl TaskX { pub uninterp spec fn tev(&self, emit_message: bool) -> int; }
+#[verifier::external_body]
+pub fn mk_proc_event(p: &Arc<ProcessX>) -> (r: Ev) ensures r.id == p.pev() { unimplemented!() }
+#[verifier::external_body]
+pub fn mk_task_event(t: &Arc<TaskX>, emit_message: bool) -> (r: Ev) ensures r.id == t.tev(emit_message) { unimplemented!() }
+pub open spec fn hook_calls_of(hs: Seq<HId>, ev: int) -> Seq<(HId, int)> { hs.map_values(|h: HId| (h, ev)) }
 // R10': the deferred block runs later -- anything may have happened to the registries in between; the registry the block finds is recorded
 #[verifier::external_body]
 pub fn interleave(Tracked(em): Tracked<&mut EmAbs>)
@@ -120,9 +150,9 @@ pub fn interleave(Tracked(em): Tracked<&mut EmAbs>)
 #[verifier::external_body]
 pub fn clock_millis() -> i64 { unimplemented!() }
 
-pub struct Emitter { pub starts: Reg, pub completes: Reg, pub messages: Reg, pub errors: Reg, pub ticks: TickReg }
+pub struct Emitter { pub starts: Reg, pub completes: Reg, pub messages: Reg, pub errors: Reg, pub ticks: TickReg, pub procs: HookReg, pub tasks: HookReg }
 impl Emitter {
-    pub open spec fn wf(&self) -> bool { self.starts.which() == 0 && self.completes.which() == 1 && self.messages.which() == 2 && self.errors.which() == 3 }
+    pub open spec fn wf(&self) -> bool { self.starts.which() == 0 && self.completes.which() == 1 && self.messages.which() == 2 && self.errors.which() == 3 && self.procs.which() == 0 && self.tasks.which() == 1 }
 }
 pub open spec fn calls_of(es: Seq<(String, HandlerFn)>, ev: int) -> Seq<(HId, int)> { es.map_values(|e: (String, HandlerFn)| (e.1.hid(), ev)) }
 pub open spec fn tick_calls_of(hs: Seq<HandlerFn>, t: int) -> Seq<(HId, int)> { hs.map_values(|h: HandlerFn| (h.hid(), t)) }
@@ -325,6 +355,72 @@ impl Emitter {
                 proof { assert(em.seen_ticks.take(__i1 as int + 1) =~= em.seen_ticks.take(__i1 as int).push(em.seen_ticks[__i1 as int])); }
 //@@ proof at=afterloop1
             proof { assert(em.seen_ticks.take(em.seen_ticks.len() as int) =~= em.seen_ticks); }
+//@@ end
+//@@ extract file=acts/src/event/emitter.rs in="impl Emitter" item="fn on_proc" name=Emitter::on_proc props=C08,C03
+//@@ rw R20 `f : impl Fn ( & Event < Arc < Process > > ) + Send + Sync + 'static` => `f: RawFn`
+//@@ rw R11 `self . procs . write ( ) . unwrap ( ) . push ( Arc :: new ( f ) ) ;` => `self.procs.hook_push(arc_handler(f));`
+//@@ spec
+    requires self.wf()
+    ensures
+        //# N6-a-process-event-handler-is-added-once-at-the-end
+        *final(em) == (EmAbs { reg: Registry { procs: old(em).reg.procs.push(f.fid()), ..old(em).reg }, ..*old(em) }),
+//@@ end
+//@@ extract file=acts/src/event/emitter.rs in="impl Emitter" item="fn on_task" name=Emitter::on_task props=C08,C11
+//@@ rw R20 `f : impl Fn ( & Event < Arc < Task > , TaskExtra > ) + Send + Sync + 'static` => `f: RawFn`
+//@@ rw R11 `self . tasks . write ( ) . unwrap ( ) . push ( Arc :: new ( f ) ) ;` => `self.tasks.hook_push(arc_handler(f));`
+//@@ spec
+    requires self.wf()
+    ensures
+        //# N6-a-task-event-handler-is-added-once-at-the-end
+        *final(em) == (EmAbs { reg: Registry { tasks: old(em).reg.tasks.push(f.fid()), ..old(em).reg }, ..*old(em) }),
+//@@ end
+//@@ extract file=acts/src/event/emitter.rs in="impl Emitter" item="fn emit_proc_event" name=Emitter::emit_proc_event props=C08,C03
+//@@ rw R20 `proc : & Arc < Process >` => `proc: &Arc<ProcessX>`
+//@@ rw R11 `self . procs . read ( ) . unwrap ( )` => `self.procs.hook_entries()`
+//@@ rw R7 `Event :: new ( & self . runtime . read ( ) . unwrap ( ) , proc )` => `mk_proc_event(proc)`
+//@@ rw R20 `( handle ) ( e ) ;` => `handle.call(e);`
+//@@ spec
+    requires self.wf()
+    ensures
+        //# N6-a-process-event-reaches-every-registered-handler-once-in-order-before-the-emit-returns
+        final(em).reg == old(em).reg && final(em).calls == old(em).calls + hook_calls_of(old(em).reg.procs, proc.pev()),
+//@@ loop 1
+        invariant
+            //# handled-so-far
+            em.reg == old(em).reg && __v1@.len() == old(em).reg.procs.len() && (forall|i: int| 0 <= i < __v1@.len() ==> (#[trigger] __v1@[i]).hid() == old(em).reg.procs[i]) && e.id == proc.pev()
+                && em.calls == old(em).calls + hook_calls_of(old(em).reg.procs.take(__i1 as int), proc.pev()),
+//@@ proof at=loop1
+            proof { assert(old(em).reg.procs.take(__i1 as int + 1) =~= old(em).reg.procs.take(__i1 as int).push(old(em).reg.procs[__i1 as int])); }
+//@@ proof at=afterloop1
+        proof { assert(old(em).reg.procs.take(old(em).reg.procs.len() as int) =~= old(em).reg.procs); }
+//@@ end
+//@@ extract file=acts/src/event/emitter.rs in="impl Emitter" item="fn emit_task_event" name=Emitter::emit_task_event props=C08,C11
+//@@ rw R20 `task : & Arc < Task >` => `task: &Arc<TaskX>`
+//@@ spec
+    requires self.wf()
+    ensures
+        //# N6-a-task-event-reaches-every-registered-handler-once-in-order-with-messages-enabled
+        ret is Ok && final(em).reg == old(em).reg && final(em).calls == old(em).calls + hook_calls_of(old(em).reg.tasks, task.tev(true)),
+//@@ end
+//@@ extract file=acts/src/event/emitter.rs in="impl Emitter" item="fn emit_task_event_with_extra" name=Emitter::emit_task_event_with_extra props=C08,C11
+//@@ rw R20 `task : & Arc < Task >` => `task: &Arc<TaskX>`
+//@@ rw R11 `self . tasks . read ( ) . unwrap ( )` => `self.tasks.hook_entries()`
+//@@ rw R7 `Event :: new_with_extra ( & self . runtime . read ( ) . unwrap ( ) , task , & TaskExtra { emit_message } , )` => `mk_task_event(task, emit_message)`
+//@@ rw R20 `( handle ) ( e ) ;` => `handle.call(e);`
+//@@ spec
+    requires self.wf()
+    ensures
+        //# N6-a-task-event-reaches-every-registered-handler-once-in-order-before-the-emit-returns
+        ret is Ok && final(em).reg == old(em).reg && final(em).calls == old(em).calls + hook_calls_of(old(em).reg.tasks, task.tev(emit_message)),
+//@@ loop 1
+        invariant
+            //# handled-so-far
+            em.reg == old(em).reg && __v1@.len() == old(em).reg.tasks.len() && (forall|i: int| 0 <= i < __v1@.len() ==> (#[trigger] __v1@[i]).hid() == old(em).reg.tasks[i]) && e.id == task.tev(emit_message)
+                && em.calls == old(em).calls + hook_calls_of(old(em).reg.tasks.take(__i1 as int), task.tev(emit_message)),
+//@@ proof at=loop1
+            proof { assert(old(em).reg.tasks.take(__i1 as int + 1) =~= old(em).reg.tasks.take(__i1 as int).push(old(em).reg.tasks[__i1 as int])); }
+//@@ proof at=afterloop1
+        proof { assert(old(em).reg.tasks.take(old(em).reg.tasks.len() as int) =~= old(em).reg.tasks); }
 //@@ end
 }
 
